@@ -84,6 +84,10 @@ class SQLRepo:
             _LOGGER.debug(emsg, path=filename)
             return None
 
+    def get_file_names(self) -> list[str]:
+        """Returns the name (i.e. relative path) of every indexed file."""
+        return list(self._session.exec(select(sql.Page.path)))
+
     def get_notes_by_query(self, query: Optional[WhereOrFilter]) -> list[Note]:
         """Get note(s) from DB by using a query."""
         select_of_note = to_sql_select(query, self._session)
